@@ -34,3 +34,54 @@ Example C08_mjpeg_example :
   snd (dec_run dinit [first1; empty_cont; empty_cont]) = [DMore; DMore; DMore]
   /\ retained (fst (dec_run dinit [first1; empty_cont; empty_cont])) = (65, 4).
 Proof. split; vm_compute; reflexivity. Qed.
+
+(* ---- the translated kernels (tools/go2coq, regenerated from the Go source on every run) ----
+   The length and validity tests of rtpmjpeg - headerJPEG.unmarshal: len(byts) < 8, Type > 63, Quantization == 0 ||
+   (> 99 && < 127), Width = int(byts[6]) * 8, the consumed size 8; Decode: Quantization >= 128, d.fragmentsSize < 2;
+   headerQuantizationTable.unmarshal: len(byts) < 4, Precision != 0, length = int(byts[2])<<8 | int(byts[3]), the
+   accepted lengths 64 and 128, (len(byts) - 4) < length, tableCount = length / 64, the consumed size 4 + length - and
+   every statement of makeQuantizationTables: q < 50, 5000 / int(q), 200 - 2*int(q), v := (quantizer*scale + 50) / 100,
+   v > 255, v == 0, byte(v) (both copies; Bridge.scale_code, luma_entry_code, chroma_entry_code) - ARE the formulas of
+   Model.jhdr_unmarshal / dec / qt_unmarshal / scale_of / quant_entry. *)
+From Coq Require Import ZArith.
+From GVG Require Import Kern.
+From GV_mjpeg Require Import BridgeLib Bridge.
+Open Scope Z_scope.
+
+Theorem C08_mjpeg_kernels_are_the_code :
+  forall (b qb : bytes) (ty q w h fs pr l1 l0 q1 base : N) (sc : Z),
+  byte w -> byte h -> byte l1 -> byte l0 -> (4 <= nlen qb)%N -> Z.of_N (nlen qb) < i64max -> (1 <= q1)%N -> byte q1 ->
+  -2147483648 < sc < 2147483648 -> u32 base ->
+  k_mjpeg_jh_short (Z.of_N (nlen b)) = (nlen b <? 8)%N /\ k_mjpeg_jh_size = Z.of_N 8 /\
+  k_mjpeg_jh_badtype (Z.of_N ty) = (63 <? ty)%N /\
+  k_mjpeg_jh_badq (Z.of_N q) = ((q =? 0)%N || ((99 <? q)%N && (q <? 127)%N)) /\
+  k_mjpeg_jh_width (Z.of_N w) = Z.of_N (w * 8) /\ k_mjpeg_jh_height (Z.of_N h) = Z.of_N (h * 8) /\
+  k_mjpeg_dec_qdyn (Z.of_N q) = (128 <=? q)%N /\ k_mjpeg_dec_tiny (Z.of_N fs) = (fs <? 2)%N /\
+  k_mjpeg_qt_short (Z.of_N (nlen qb)) = (nlen qb <? 4)%N /\
+  k_mjpeg_qt_badprec (Z.of_N pr) = negb (pr =? 0)%N /\
+  k_mjpeg_qt_length (Z.of_N l1) (Z.of_N l0) = Z.of_N (be16 l1 l0) /\
+  k_mjpeg_qt_len1 = Z.of_N 64 /\ k_mjpeg_qt_len2 = Z.of_N 128 /\
+  k_mjpeg_qt_trunc (Z.of_N (nlen qb)) (Z.of_N (be16 l1 l0)) = (nlen qb - 4 <? be16 l1 l0)%N /\
+  k_mjpeg_qt_count k_mjpeg_qt_len1 = Z.of_N 1 /\ k_mjpeg_qt_count k_mjpeg_qt_len2 = Z.of_N 2 /\
+  k_mjpeg_qt_size k_mjpeg_qt_len1 = Z.of_N 68 /\ k_mjpeg_qt_size k_mjpeg_qt_len2 = Z.of_N 132 /\
+  scale_code (Z.of_N q1) = Some (scale_of q1) /\
+  luma_entry_code sc (Z.of_N base) = Z.of_N (quant_entry sc base) /\
+  chroma_entry_code sc (Z.of_N base) = Z.of_N (quant_entry sc base).
+Proof. exact caps_kernels_are_the_code. Qed.
+Print Assumptions C08_mjpeg_kernels_are_the_code.
+
+(* 7 bytes are too short for the main header, 8 are not; type 63 is accepted, 64 is not; Q = 0, 100, 126 are invalid, 99,
+   127, 128 valid; Q = 127 uses computed tables, 128 in-band ones; a 67-byte table header with length 64 is truncated, 68
+   is not; Q = 49 scales by 102, Q = 50 by 100, Q = 127 by -54 (negative entries are stored modulo 256), Q = 0 panics
+   (division by zero); an entry above 255 is clamped to 255, an entry 0 becomes 1 *)
+Example C08_mjpeg_example_kernels :
+  k_mjpeg_jh_short 7 = true /\ k_mjpeg_jh_short 8 = false /\ k_mjpeg_jh_badtype 63 = false /\ k_mjpeg_jh_badtype 64 = true /\
+  k_mjpeg_jh_badq 0 = true /\ k_mjpeg_jh_badq 99 = false /\ k_mjpeg_jh_badq 100 = true /\ k_mjpeg_jh_badq 126 = true /\
+  k_mjpeg_jh_badq 127 = false /\ k_mjpeg_dec_qdyn 127 = false /\ k_mjpeg_dec_qdyn 128 = true /\
+  k_mjpeg_dec_tiny 1 = true /\ k_mjpeg_dec_tiny 2 = false /\ k_mjpeg_jh_width 255 = 2040 /\
+  k_mjpeg_qt_trunc 67 64 = true /\ k_mjpeg_qt_trunc 68 64 = false /\ k_mjpeg_qt_short 3 = true /\
+  scale_code 49 = Some 102 /\ scale_code 50 = Some 100 /\ scale_code 127 = Some (-54) /\ scale_code 0 = None /\
+  luma_entry_code 5000 16 = 255 /\ luma_entry_code 2 16 = 1 /\ luma_entry_code 100 16 = 16 /\
+  chroma_entry_code 102 99 = 101 /\ luma_entry_code (-54) 16 = 248 /\ luma_entry_code 318 80 = 254 /\
+  luma_entry_code 319 80 = 255.
+Proof. vm_compute. repeat split. Qed.
